@@ -320,6 +320,11 @@ def main(argv):
             inp = b"".join(pyb64.b64encode(d) + b"\n" for d in docs)
             st, so, se = run_limited([tool, idc], stdin=inp, timeout=60)
             check_stream("at-once", docs, st, so, se, "%d documents (see mkdocs in checks/C08.py) | b64filter child_id.py" % n)
+        # one very large document (bigger than every stream buffer and pipe) between small ones
+        big = b"".join(b"row %d of the big document %s\n" % (i, b"z" * (i % 97)) for i in range(6000))
+        docs = mkdocs(40, 1) + [big, b"", big[:-1]] + mkdocs(40, 2)
+        st, so, se = run_limited([tool, idc], stdin=b"".join(pyb64.b64encode(d) + b"\n" for d in docs), timeout=120)
+        check_stream("big-document", docs, st, so, se, "80 small documents around two ~400 kB documents of 6000 lines | b64filter child_id.py")
         for n, cuts in ((2500, (1023, 2046)), (1100, (1022,)), (2100, (1024, 2047))):
             docs = mkdocs(n, 7)
             enc = [pyb64.b64encode(d) + b"\n" for d in docs]
